@@ -7,7 +7,7 @@ use serde_json::json;
 
 pub fn run_case<G: AffineRepr>(run: u64, case: &SessionCase, st: &mut Stats) {
     st.eval();
-    let bp_p = gens_with_history::<G>(&case.cap_p, 1);
+    let bp_p = gens_with_history::<G>(&case.cap_p, parties_for(&case.cap_p));
     let out = run_prover::<G>(
         &case.st,
         &bp_p,
@@ -92,7 +92,7 @@ pub fn run_case<G: AffineRepr>(run: u64, case: &SessionCase, st: &mut Stats) {
             return;
         }
     };
-    let bp_v = gens_with_history::<G>(&case.cap_v, 1);
+    let bp_v = gens_with_history::<G>(&case.cap_v, parties_for(&case.cap_v));
     let v = run_verifier::<G>(&case.st, &out.commitments, &decoded, &bp_v, false);
     let vs = v.shared.borrow();
     st.steps += vs.steps as u64 + 1;
